@@ -524,9 +524,21 @@ def evaluate(prop, res):
                     add("correspondence", "model verdict differs from rustc on a malformed declaration", {"declaration": name, "rule": d["rule"], "model": mv, "rustc": "accept" if real else "reject"})
             if len(samples) < 4 and d["expect"] == "invalid":
                 samples.append({"declaration": name, "rule": d["rule"], "rustc": "accept" if real else "reject", "model": mv})
-    else:
-        # a valid declaration of this property's classes that rustc rejects is lost coverage
-        pass
+    elif prop == "C06":
+        # C06 is not conditioned on acceptance: "when a default is declared, DEFAULT, Default::default() and new() all have
+        # exactly that raw value". A declaration the rule set calls valid, written with a default, that the real macro
+        # rejects delivers none of them (the rejection itself is also C09's finding).
+        for d in decls:
+            name = d["name"]
+            if d["kind"] != "bitfield" or d.get("default") is None or not d.get("wellformed", True) or d["expect"] != "valid":
+                continue
+            cov["decls_with_default"] += 1
+            spec = model.get(name, {}).get("spec")
+            if name not in accepted and spec in (None, "valid"):
+                src, _ = decl_source(table, d)
+                add("violation", "a valid declaration with a declared default is rejected: DEFAULT / Default::default() / new() do not exist",
+                    {"declaration": name, "rule": d["rule"], "default": d.get("default"), "source": src,
+                     "rustc_errors": res["rustc_rejected"].get(name, [])[:3]})
 
     # ---- surface (C14, C15, C17, C18) -----------------------------------------------------------------
     if prop in ("C14", "C15", "C17", "C18"):
